@@ -10,6 +10,8 @@ import Drx.Codec
 import DrxProofs.Py
 import DrxProofs.Text
 import DrxProofs.TextCodec
+import DrxProofs.TextLayouts
+import Drx.Gen.TextLayouts
 namespace Drx.C16
 open Drx Drx.Fmap Drx.Stxt Drx.TextSpec
 
@@ -129,6 +131,60 @@ theorem macRoman_total (b : UInt8) : (decodeByte .macRoman b).isSome = true := b
 /-- the four table codecs give exactly one character per stored byte (so style-run start positions index the decoded text) -/
 theorem table_codec_one_char_per_byte (c : Codec) (hc : c ≠ .utf8) (bs : Bytes) (t : List Char)
     (h : decodeText c bs = .ok t) : t.length = bs.length := decodeText_table_length c hc bs t h
+
+/-! ## (L) the readers of the model ARE the generic reader over the field layouts regenerated from the Python source on every
+    run, and the control shape of each reader is the one the model implements (see DrxProps/C17.lean section (L)). -/
+
+theorem stxt_header_is_generated_layout (dec : Dec) (fm : List FontInfo) (d : Bytes) :
+    parseStxt dec fm d = Layout.readK .be d 0 Gen.TextLayouts.stxtHeader fun
+      | [idxb, nchars, _] => (dec (pySlice d idxb (idxb + nchars))).bind fun text =>
+          (getSI .be 2 d (idxb + nchars)).bind fun nformat =>
+          (runLoop fm d nformat.toNat (idxb + nchars + 2)).bind fun formats => .ok ⟨text, formats⟩
+      | _ => .error .other := parseStxt_eq_layout dec fm d
+
+theorem stxt_count_is_generated_layout (d : Bytes) (p : Nat) :
+    getSI .be 2 d (p : Int) = Layout.readK .be d p Gen.TextLayouts.stxtCount fun | [n] => .ok n | _ => .error .other :=
+  stxtCount_eq_layout d p
+
+/-- the 20-byte style record: fourteen reads at the generated offsets, widths and signedness -/
+theorem stxt_run_is_generated_layout (fm : List FontInfo) (d : Bytes) (n i : Nat) :
+    runLoop fm d (n + 1) (i : Int) = Layout.readKB .be d i Gen.TextLayouts.stxtRun fun
+      | [_, start, _, _, fontId, fmt, _, size, red, _, green, _, blue, _] =>
+          (runLoop fm d n ((i + 20 : Nat) : Int)).bind fun rest =>
+            .ok (⟨colorStrN red.toNat green.toNat blue.toNat, start, fmt.toNat % 2 = 1, fmt.toNat / 2 % 2 = 1, fmt.toNat / 4 % 2 = 1,
+                  size, fontFamily fm fontId⟩ :: rest)
+      | _ => .error .other := runLoop_succ_eq_layout fm d n i
+
+theorem fmap_header_is_generated_layout (dec : Dec) (d : Bytes) :
+    parseFmap dec d = Layout.readK .be d 0 Gen.TextLayouts.fmapSizes fun
+      | [headerSize, additionalSize] =>
+        if 8 + headerSize + additionalSize ≠ (d.length : Int) then .error .value else
+        let hd := pySlice d 8 (8 + headerSize)
+        let bd := pySlice d (8 + headerSize) (8 + headerSize + additionalSize)
+        Layout.readK .be hd 0 Gen.TextLayouts.fmapHeader fun
+          | [_, _, _, _, nfonts, nfontsCap, _, _, _, _, _, _] =>
+            (metaLoop hd nfontsCap.toNat 28).bind fun metadata => fontLoop dec bd nfonts.toNat metadata
+          | _ => .error .other
+      | _ => .error .other := parseFmap_eq_layout dec d
+
+theorem fmap_meta_is_generated_layout (hd : Bytes) (n idx : Nat) :
+    metaLoop hd (n + 1) idx = Layout.readK .be hd idx Gen.TextLayouts.fmapMeta fun
+      | [displacement, _, fontId] => (metaLoop hd n (idx + 8)).bind fun rest => .ok ((displacement, fontId) :: rest)
+      | _ => .error .other := metaLoop_succ_eq_layout hd n idx
+
+theorem fmap_font_is_generated_layout (dec : Dec) (bd : Bytes) (n disp : Nat) (fontId : Int) (ms : List (Int × Int)) :
+    fontLoop dec bd (n + 1) (((disp : Int), fontId) :: ms) = Layout.readK .be bd disp Gen.TextLayouts.fmapFont fun
+      | [nchars] => (dec (pySlice bd ((disp : Int) + 4) ((disp : Int) + 4 + nchars))).bind fun name =>
+          (fontLoop dec bd n ms).bind fun rest => .ok (⟨name, fontId⟩ :: rest)
+      | _ => .error .other := fontLoop_succ_eq_layout dec bd n disp fontId ms
+
+/-- stxt.py: big-endian words + bytes; text = `fdata[h0 : h0+h4]` read with get_encoding(); the run count is the word right behind the text; records from there + 2, 20 bytes apart -/
+theorem stxt_shape_is_generated : Gen.TextLayouts.stxtShape =
+    [("order", ">,byte"), ("slice:0", "fdata[h0:h0+h4].decode(get_encoding())"), ("loop", "for"), ("count", "h(h0+h4+0)"), ("entry:p", "h0+h4+2"), ("stride:p", "20")] := by decide
+
+/-- fmap.py: big-endian; `8 + h0 + h4` must equal `len(fdata)`; header area `fdata[8 : 8+h0]`, name area behind it; capacity-many 8-byte records from 28; per font a 4-byte length at the displacement and the name right behind it, read with get_encoding() -/
+theorem fmap_shape_is_generated : Gen.TextLayouts.fmapShape =
+    [("order", ">"), ("guard:0", "8 + h0 + h4 != len(fdata)"), ("slice:0", "fdata[8:h0+8]"), ("slice:1", "fdata[h0+8:h0+h4+8]"), ("meta.loop", "for"), ("meta.count", "buf1.h12"), ("meta.entry:p", "28"), ("meta.stride:p", "8"), ("font.loop", "for"), ("font.count", "buf1.h8"), ("font.stride:p", "buf2.e0+4"), ("font.slice:0", "buf2[p+4:p+buf2.e0+4].decode(get_encoding())")] := by decide
 
 /-! ## the property -/
 
